@@ -250,6 +250,7 @@ func TestVerifC19Handler(t *testing.T) {
 		}
 		vfC19HostnameRules(t, res)
 		vfC19ClientHostMatrix(t, res)
+		vfC19DefaultSecrets(t, res)
 	})
 }
 
@@ -492,4 +493,91 @@ func vfC19ClientHostMatrix(t *testing.T, res *vfh.Result) {
 	}
 	res.Inc("client_host_matrix_cases", n)
 	res.Set("client_host_matrix_responders", kinds)
+}
+
+// vfC19DefaultSecrets: the DEFAULT configuration of the server secret.  Several ServerPeerIDAuth values in
+// one process with HmacKey nil (same identity key, same hostname), one with an explicit secret, a copy
+// of an unused value and a copy of a used one.  Every blob one instance mints (server-initiated and
+// client-initiated final legs, bearer token) is presented to every other.  L1: accepted only by the
+// instance that minted it (a copy taken AFTER first use carries the generated secret in its HmacKey
+// field and is the same server).  Vacuity guard: the minting instance accepts its own.
+func vfC19DefaultSecrets(t *testing.T, res *vfh.Result) {
+	keys, err := vfc19.LoadKeys("ed25519", vfh.Seed())
+	if err != nil {
+		t.Fatal(err)
+	}
+	host := "alpha.example.com"
+	mk := func(key []byte) *ServerPeerIDAuth {
+		return &ServerPeerIDAuth{PrivKey: keys.Priv["kS"], TokenTTL: time.Hour, HmacKey: key, NoTLS: true, ValidHostnameFn: func(string) bool { return true }}
+	}
+	type inst struct {
+		name string
+		a    *ServerPeerIDAuth
+	}
+	d1, d2, d3, d4 := mk(nil), mk(nil), mk(nil), mk(nil)
+	pre := *d4 // copy of a value that was never used
+	vfC19Serve(d1, vfC19Request(host, "", nil))
+	post := *d1 // copy of a used value: same generated secret
+	insts := []inst{{"default-1", d1}, {"default-2", d2}, {"default-3", d3}, {"explicit", mk([]byte("an-explicit-secret-0123456789abcdef"))},
+		{"copy-before-use", &pre}, {"copy-after-use-of-default-1", &post}, {"default-4", d4}}
+	same := func(i, j string) bool {
+		return (i == "default-1" && j == "copy-after-use-of-default-1") || (j == "default-1" && i == "copy-after-use-of-default-1")
+	}
+	n := 0
+	for _, m := range insts {
+		type blob struct{ what, hdr string }
+		var blobs []blob
+		for _, flow := range []string{"server-initiated", "client-initiated"} {
+			leg1 := ""
+			if flow == "client-initiated" {
+				leg1 = handshake.PeerIDAuthScheme + ` challenge-server="QXR0YWNrZXJDaG9zZW5DaGFsbGVuZ2VfMDEyMzQ1Njc4OV8=", public-key="` + vfc19.B64(keys.PubB["kA"]) + `"`
+			}
+			p := vfc19.ParseParams(vfC19Serve(m.a, vfC19Request(host, leg1, nil)).WWW)
+			sg, err := keys.Priv["kA"].Sign(vfc19.Payload("cli", []byte(p["challenge-client"]), keys.PubB["kS"], host))
+			if err != nil || p["opaque"] == "" {
+				t.Fatalf("default secrets: no challenge from %s: %v", m.name, err)
+			}
+			hdr := handshake.PeerIDAuthScheme + ` opaque="` + p["opaque"] + `", sig="` + vfc19.B64(sg) + `"`
+			if flow == "server-initiated" {
+				hdr += `, public-key="` + vfc19.B64(keys.PubB["kA"]) + `", challenge-server="QXR0YWNrZXJDaG9zZW5DaGFsbGVuZ2VfMDEyMzQ1Njc4OV8="`
+			}
+			blobs = append(blobs, blob{flow + " final leg", hdr})
+		}
+		own := vfC19Serve(m.a, vfC19Request(host, blobs[0].hdr, nil))
+		tok := vfc19.ParseParams(own.Info)["bearer"]
+		if !own.Accepted || tok == "" {
+			t.Fatalf("default secrets: vacuous: %s refuses its own final leg: %s", m.name, own.Detail)
+		}
+		blobs = append(blobs, blob{"bearer token", handshake.PeerIDAuthScheme + ` bearer="` + tok + `"`})
+		for _, b := range blobs[1:] {
+			if o := vfC19Serve(m.a, vfC19Request(host, b.hdr, nil)); !o.Accepted {
+				t.Fatalf("default secrets: vacuous: %s refuses its own %s: %s", m.name, b.what, o.Detail)
+			}
+		}
+		for _, other := range insts {
+			if other.name == m.name {
+				continue
+			}
+			for _, b := range blobs {
+				o := vfC19Serve(other.a, vfC19Request(host, b.hdr, nil))
+				n++
+				res.Case("defaultsecret|" + m.name + "|" + other.name + "|" + b.what)
+				if same(m.name, other.name) {
+					if o.Accepted {
+						res.Inc("same_secret_copies_accept", 1)
+					}
+					continue
+				}
+				if o.Accepted || vfc19.ParseParams(o.Info)["bearer"] != "" {
+					cls := "srv-accepts-foreign-opaque"
+					if b.what == "bearer token" {
+						cls = "srv-accepts-foreign-token"
+					}
+					res.AddMismatch(vfh.Mismatch{Class: cls, Walk: -1, What: fmt.Sprintf("server instance %q reports %s on a %s that only instance %q minted (same process, same identity key and hostname)",
+						other.name, o.Peer, b.what, m.name), Expected: "rejected", Got: map[string]any{"header": b.hdr}})
+				}
+			}
+		}
+	}
+	res.Inc("default_secret_cases", n)
 }
